@@ -79,7 +79,9 @@ def _history(ops, w, arr):
             hi.disconnect(pname)
             del final[pname]
             continue
+        b.dict_anon = (op == 2)  # connect() receives anonymous bundles in their dict shorthand
         x = b.expr(m, e, ncs)
+        b.dict_anon = False
         if op == 0:
             hi(**{pname: x})
         elif op == 1:
